@@ -28,6 +28,7 @@
    statement is FALSE of the current tree: the *_refuted theorems below are the
    bytecode of three accepted programs (known findings, known/C04.json); the
    harness replays their sources against the real compiler and VM on every run. *)
+From V Require Import Lang.Elab Lang.Wt Proofs.ElabSound.
 From V Require Import Lang.Codegen Lang.Verify Proofs.VmInv Proofs.VerifyProofs Proofs.CodegenVerifies.
 Local Open Scope Z_scope.
 
@@ -178,7 +179,73 @@ Example C04_accepts_excludes :
              (BCons (SCond (EArith ASub TFloat (EFloat 0) (EFloat 0)) (BCons (SInc 0 XNil) BNil)) BNil) [] []) = false.
 Proof. repeat split; vm_compute; reflexivity. Qed.
 
+(* ---- from the PARSED tree: the checker model (Lang/Elab.v) ----
+   [elab] = elaboration (type inference for metrics by first use, promotion
+   with conversion nodes, capture scoping, table numbering, the rejections of
+   checker.go and codegen.go) followed by VALIDATION of its output against
+   [accepts] and [wt]: the two theorems hold by construction (translation
+   validation).  What ties [elab] to checker.go is the correspondence (CElab
+   cases of Corr/Run_C04.v): on every run codegen (elab parsed-tree) must be
+   the real compiler's object code, elab must reject exactly when the compiler
+   does, and an unaccepted tree must carry one of the family warnings that the
+   elaboration raises where the checker lets a foreign representation through.
+   Not proved: that elab_raw's own warnings are complete (i.e. the theorem
+   without the validation step), and a completeness statement
+   (main_region u -> elab u succeeds); both are tested, not proved. *)
+
+Theorem C04_elab_sound :
+  forall u p w, elab u = EOk (p, w) -> existsb is_notwt w = false -> wt p = true.
+Proof. exact elab_wt. Qed.
+
+Theorem C04_elab_accepts_representable :
+  forall u p w, elab u = EOk (p, w) -> representable u = true -> accepts p = true.
+Proof.
+  intros u p w H R. unfold representable in R. rewrite H in R. eapply elab_accepts; eauto.
+Qed.
+
+Theorem C04_elab_never_faults :
+  forall u p w, elab u = EOk (p, w) -> representable u = true ->
+  forall (E : env) (lines : list logline),
+    Forall checked (fst (run_lines E (codegen p) lines (init_vm (codegen p)))).
+Proof.
+  intros u p w H R E lines. apply C04_accepted_program_never_faults.
+  eapply C04_elab_accepts_representable; eauto.
+Qed.
+
+(* counter c ; gauge g ; /x(\d+) (\d+\.\d+)/ { c += $1 ; g = $2 * $1 ; $1 > 3 { c++ } } *)
+Definition ex_pre : pre_prog :=
+  mkpre [mkpdecl MCounter 0; mkpdecl MGauge 0]
+    (PBCons (PSCond true (PMatch [120%N])
+       (PBCons (PSAddTo 0 PXNil (PCap [49%N]))
+       (PBCons (PSSet 1 PXNil (PArith AMul (PCap [50%N]) (PCap [49%N])))
+       (PBCons (PSCond true (PCmp CGt (PCap [49%N]) (PInt 3)) (PBCons (PSInc 0 PXNil) PBNil)) PBNil)))) PBNil)
+    [([120%N], [([], Some TStr); ([], Some TInt); ([], Some TFloat)])].
+
+(* the metric types are inferred (c Int, g Float), the Int operand of * is promoted *)
+Example C04_ex_elab :
+  exists p, elab ex_pre = EOk (p, []) /\ representable ex_pre = true /\
+    map md_ty (p_decls p) = [TInt; TFloat] /\
+    p_body p = BCons (SCond (EMatch 0)
+       (BCons (SAddTo TInt 0 XNil (ECap 0 1 TInt))
+       (BCons (SSet TFloat 1 XNil (EArith AMul TFloat (ECap 0 2 TFloat) (EConv TInt TFloat (ECap 0 1 TInt))))
+       (BCons (SCond (ECmp CGt TInt true (ECap 0 1 TInt) (EInt 3)) (BCons (SInc 0 XNil) BNil)) BNil)))) BNil.
+Proof. eexists. repeat split; vm_compute; reflexivity. Qed.
+
+(* the families are announced by the elaboration itself: g = $2 (Float) then g = $1 (Int) *)
+Example C04_ex_elab_mixed :
+  exists p w, elab (mkpre [mkpdecl MGauge 0]
+      (PBCons (PSCond true (PMatch [120%N])
+         (PBCons (PSSet 0 PXNil (PCap [50%N])) (PBCons (PSSet 0 PXNil (PCap [49%N])) PBNil))) PBNil)
+      [([120%N], [([], Some TStr); ([], Some TInt); ([], Some TFloat)])]) = EOk (p, w) /\
+    existsb (fun x => match x with WMixed => true | _ => false end) w = true /\ accepts p = false.
+Proof. do 2 eexists. repeat split; vm_compute; reflexivity. Qed.
+
 Print Assumptions C04_verify_sound.
+Print Assumptions C04_elab_sound.
+Print Assumptions C04_elab_accepts_representable.
+Print Assumptions C04_elab_never_faults.
+Print Assumptions C04_ex_elab.
+Print Assumptions C04_ex_elab_mixed.
 Print Assumptions C04_codegen_verifies_partial.
 Print Assumptions C04_accepted_program_never_faults.
 Print Assumptions C04_ex_accepts.
